@@ -329,6 +329,7 @@ def run(ctx):
                               {"kind": "ops", "calls": [c[0] for c in small], "ops": [c[1] for c in small], "observed": o2, "expected": "check_trace = [] (model outputs)"})
     ctx.extra["input_distribution"] = kinds
     content_bindings(ctx, wexe)
+    dead_id_bindings(ctx, wexe)
     twin_differential(ctx, wexe)
     ctx.trusted += ["translator/c13_fwd.py (token-level transliteration of the wrappers into shape records; anything unrecognised becomes ROther/FROther and fails wrapper_ok)",
                     "the documented-behaviour table doc_bad / shifted in coq/Wrapper/Fwd.v was transcribed by hand from IPhreeqc.h and IPhreeqc_interface.F90",
@@ -517,6 +518,33 @@ def twin_differential(ctx, wexe):
             if json.dumps(oc, sort_keys=True) != json.dumps(om, sort_keys=True) or json.dumps(oc, sort_keys=True) != json.dumps(of, sort_keys=True):
                 d = c07.diff_obs(oc, om) or c07.diff_obs(oc, of)
                 ctx.violation("twin:state:" + vlib.key_of(hist), "the same history through C, C++ and F leaves different instance states: %s" % d, rep_obj)
+
+
+def dead_id_bindings(ctx, wexe):
+    """every no-argument integer function of the C API and its Fortran-binding twin, called with ids that are not live (never issued,
+    negative, destroyed, destroyed twice): the binding adds nothing to the C result — in particular the invalid-instance result survives"""
+    inc = os.path.join(vlib.CACHE, "gen" + vlib.REPO_TAG, "dispatch.inc")
+    txt = open(inc).read()
+    cnames = set(re.findall(r'^C0\["([A-Za-z]+)"\] = \[\]\(int id\) -> std::string \{ return jint', txt, flags=re.M))
+    fnames = set(re.findall(r'^F0\["([A-Za-z]+)F"\] = \[\]\(int id\) -> std::string \{ return jint', txt, flags=re.M))
+    names = sorted(n for n in cnames & fnames if not n.startswith(("Create", "Destroy", "Run", "Clear", "Output")))
+    ops = [["create"], ["create"], ["destroy", 1], ["destroy", 1], ["c", "LoadDatabase", 0, os.path.join(vlib.DB, "minimum.dat")]]
+    probes = []
+    for n in names:
+        for i in (1, 5, -1, -7, 10**6):
+            ops.append(["c", n, i]); ops.append(["f", n + "F", i]); probes.append((n, i, len(ops) - 2))
+    with vlib.scratch("c13d") as d:
+        res, rc, err = wrap.run_script(wexe, ops, d)
+    if rc != 0 or any(r is None for r in res):
+        ctx.violation("deadid:driver", "driver failed: %s" % err[-200:], {"kind": "ops", "ops": ops})
+        return
+    for n, i, k in probes:
+        c, f = res[k].get("r"), res[k + 1].get("r")
+        ctx.case("deadid:%s:%d" % (n, i), nontrivial=True)
+        if c != f:
+            ctx.violation("deadid:%s" % n, "%sF(%d) returns %r but %s(%d) returns %r for an id that is not live: the Fortran binding must pass the invalid-instance result through" % (n, i, f, n, i, c),
+                          {"kind": "ops", "ops": ops[:5] + [["c", n, i], ["f", n + "F", i]], "observed": f, "expected": c})
+            break
 
 
 def gen_fixed():
